@@ -57,6 +57,10 @@ func runC07(p *chk.Prog, r *chk.Report) {
 	// that Assign will use: FREE-IP (shared with C02) pins the key built in
 	// getIPFromCIDR to the caller's sharingKey and backendKey.
 	c02FreeIP(p, r)
+	releaseOnExitRule(p, r)
+	// a request that is refused after its addresses were assigned gives them back (REQUEST-IPS, shared with C02): a
+	// leaked allocation starves the Services for which that address is the only admissible one
+	c02Requests(p, r)
 }
 
 func c07Release(p *chk.Prog, r *chk.Report) {
